@@ -101,13 +101,30 @@ def generate(rng, tier):
         kinds[dtid] = kind
     mods = [m['relpath'] for m in world['modules']]
     targets = mods + (['simpkg'] if len(mods) > 1 or rng.random() < 0.3 else [])
+    zero_mod = None
+    zero_names = []
+    if rng.random() < 0.07 and not many and len(world['modules']) > 1:
+        # a module that documents nothing: its functions without arguments are run through the
+        # implicit examples the native runner builds when nothing documented matches the command
+        zmod = rng.choice(world['modules'])
+        for d in [d for d in kinds if d.startswith(zmod['name'] + '::')]:
+            del kinds[d]
+        zmod['items'] = []
+        for zdt, zpid in gen.add_zero_funcs(rng, zmod, rng.randint(1, 3)):
+            kinds[zdt] = 'pass'
+            zero_names.append(zdt.split('::')[1].split(':')[0])
+        zero_mod = zmod['relpath']
     ids = gen.doctest_ids(world)
     ops = []
     for _ in range(rng.randint(1, 3)):
         target = rng.choice(targets)
         r = rng.random()
         verbose = rng.choice([0, 1, 2, 3])
-        if r < 0.5:
+        if target == zero_mod:
+            cmd = rng.choice(['zero-all', 'zero-all', 'zero', 'all', 'list'] + zero_names)
+            if cmd == 'list':
+                verbose = max(verbose, 1)
+        elif r < 0.5:
             cmd = 'all'
         elif r < 0.65:
             cmd = 'list'
@@ -152,6 +169,33 @@ def generate(rng, tier):
             if rng.random() < 0.2:
                 # the host program has a command line of its own; what was asked for explicitly counts
                 ops[-1]['argv_from_process'] = True
+    if rng.random() < 0.08 and not many:
+        # between two operations of the same process somebody edits a module in place: one
+        # character of a want changes, the size of the file and its time stamp do not.  What runs
+        # and is reported afterwards is what is in the file then.
+        cands = [(dtid, st['i'], mod) for dtid, dt, mod in W.iter_doctests(world) if kinds.get(dtid) == 'pass' and not dt.get('zero_arg')
+                 for st in dt['steps'] if st.get('want') in ('acc', 'last', 'repr') and not st.get('want_corrupt')]
+        static = all(o.get('analysis', 'auto') != 'dynamic' and '--analysis=dynamic' not in o.get('argv', []) for o in ops)
+        if cands and static:
+            dtid, step_i, mod = rng.choice(cands)
+            pos = rng.randint(1, len(ops))
+            ops.insert(pos, {'op': 'rewrite', 'dt': dtid, 'step_i': step_i})
+            tail = {'op': 'runner', 'target': mod['relpath'], 'command': rng.choice(['all', dtid.split('::')[1]]),
+                    'verbose': rng.choice([0, 1, 3])}
+            if rng.random() < 0.4:
+                tail = {'op': 'cli', 'argv': ['PATH:' + mod['relpath'], tail['command'], '--verbose=%d' % tail['verbose']]}
+            ops.insert(rng.randint(pos + 1, len(ops)), tail)
+    if rng.random() < 0.05 and not many:
+        # code the caller asked to run before every doctest (--global-exec) that cannot run: the
+        # error is not a doctest's, and the unchanged runner abandons the run with it.  An
+        # abandoned run reports nothing; a run that does report must still add up.
+        cands = [o for o in ops if o['op'] in ('runner', 'cli') and _cmd_of(o)[1] != 'list']
+        if cands:
+            o = rng.choice(cands)
+            if o['op'] == 'runner':
+                o['config'] = dict(o.get('config') or {}, global_exec='import sim_nosuch_module')
+            else:
+                o['argv'] = o['argv'] + ['--global-exec=import sim_nosuch_module']
     # plan: turn some passing executions into failures
     plan = []
     if many:
@@ -279,6 +323,10 @@ def check(rec):
             continue
         target, cmd, verbose = _cmd_of(op)
         lab = 'op%d %s %s %s' % (o['op'], op['op'], target, cmd)
+        bad_global = 'sim_nosuch_module' in str((op.get('config') or {}).get('global_exec')) or \
+            any('sim_nosuch_module' in a for a in op.get('argv', []))
+        if o['how'] != 'returned' and bad_global and o['exc'] == 'ModuleNotFoundError':
+            continue        # abandoned with the caller's own error: nothing was reported
         if o['how'] != 'returned':
             out.append(common.viol('C10.R2', '%s did not return: %s: %s' % (lab, o['exc'], o.get('exc_msg', '')[:200]), op=o['op']))
             continue
@@ -302,6 +350,8 @@ def check(rec):
                 out.append(common.viol('C10.R5', '%s executed doctests %s' % (lab, ran), op=o['op']))
             text = o.get('term') or ''
             for dtid, dt, mod in under:
+                if dt.get('zero_arg'):
+                    continue        # (only what is documented is listed)
                 callname = dtid.split('::')[1]
                 pat = re.compile(r'%s %s\s*$' % (re.escape(mod['relpath']), re.escape(callname)), re.M)
                 if not pat.search(text):
@@ -310,11 +360,19 @@ def check(rec):
                 out.append(common.viol('C10.R4', '%s returned %s' % (lab, o['value']), op=o['op']))
             continue
         if cmd == 'all':
-            expected = sorted(dtid for dtid, dt, mod in under if not dt.get('disabled'))
+            expected = sorted(dtid for dtid, dt, mod in under if not dt.get('disabled') and not dt.get('zero_arg'))
             rule = 'C10.R1'
         else:
-            expected = sorted(dtid for dtid, dt, mod in under
-                              if cmd in (dtid.split('::')[1], dtid.split('::')[1].rsplit(':', 1)[0]))
+            expected = sorted(dtid for dtid, dt, mod in under if not dt.get('zero_arg') and
+                              cmd in (dtid.split('::')[1], dtid.split('::')[1].rsplit(':', 1)[0]))
+            if not expected:
+                # nothing documented matches: the functions that take no arguments
+                zall = cmd in ('zero-all', 'zero', 'zero_all', 'zero-args')
+                expected = sorted(dtid for dtid, dt, mod in under if dt.get('zero_arg') and
+                                  (zall or cmd in (dtid.split('::')[1], dtid.split('::')[1].rsplit(':', 1)[0])))
+                if zall:
+                    expected = sorted(expected + ['%s::simshadow:0' % m['name'] for m in world['modules']
+                                                  if m['relpath'] == target or m['relpath'].startswith(target.rstrip('/') + '/')])
             rule = 'C10.R6'
         if ran != expected:
             extra = [d for d in ran if d not in expected or ran.count(d) > expected.count(d)]
@@ -358,8 +416,11 @@ def check(rec):
                 else:
                     got = {}
                     for part in m.group(1).split(', '):
-                        num, word = part.split(' ')
-                        got[word] = int(num)
+                        bits = part.split(' ')
+                        if len(bits) == 2 and bits[0].isdigit():
+                            got[bits[1]] = int(bits[0])
+                        else:
+                            got['?'] = part         # (a tally the line does not spell out)
                     want = {k_: len(v_) for k_, v_ in obs.items() if v_}
                     got.pop('warnings', None)
                     if got != want:
